@@ -602,7 +602,23 @@ func (g *genState) reqsC05(docs map[uuid.UUID]Val) []requestSpec {
 	path := g.schema[0].path
 	for k := 0; k < 7; k++ {
 		var text string
-		switch r.IntN(10) {
+		pickCase := r.IntN(10)
+		// half of the queries ask for words of a text written by the last batch (fresh frequencies / lengths)
+		if r.IntN(2) == 0 && len(g.recent) > 0 {
+			if d, ok := docs[g.recent[r.IntN(len(g.recent))]]; ok {
+				if tv, ok := d.get(path); ok && tv.K == kStr {
+					if ws := strings.Fields(tv.S); len(ws) > 0 {
+						text = ws[r.IntN(len(ws))]
+						if r.IntN(2) == 0 {
+							text += " " + ws[r.IntN(len(ws))]
+						}
+						pickCase = 99
+					}
+				}
+			}
+		}
+		switch pickCase {
+		case 99:
 		case 0:
 			text = "the of and"
 		case 1:
